@@ -14,7 +14,7 @@ use std::time::Duration;
 
 pub static PROP: Prop = Prop {
     id: "C08",
-    rule: "cases: histories of 2-14 steps, each in a fresh child process over 1-2 persistent threads: register_function / register_prefix_op / register_postfix_op / register_infix_op(name, precedence, associativity) with handlers that return List[id, operands...]; names are fresh words, re-registrations of earlier names and built-in names (min, sum, +, - prefix, ++, in, &&) - also as the very first engine call of the process; symbolic operators only as one-character extensions of existing operators; precedences from {1, 2, 19, 20, 21, 39..41, 59..61, 109..111, 119..121, 199..201, 10^9-1, 10^9} and uniform 1..=10^9 (an operator on an existing level takes that level's associativity); parse(text) and exec(text, context) steps with flat programs generated over the CURRENT operator table that use the registered names often; contexts that shadow a global function with a context function, bind the same name as a variable, or leave it unbound. Oracle: a model registry updated per step (insert semantics); parse => reference parser parameterised by the model table; exec => reference evaluator whose handlers return List[id, args...], call dispatch = context function, else global, else error. Plus the exhaustive adjacent-precedence table: a new operator at p in {q-1, q, q+1} x {LEFT, RIGHT where allowed} on either side of each of the 11 built-in levels q. Non-trivial: a re-registration, built-in override or context shadow that is subsequently used, or an operator whose precedence differs by exactly 1 from another operator used in the same text; distinct by (step-kind sequence, relative precedence pattern).",
+    rule: "cases: histories of 2-14 steps, each in a fresh child process over 1-2 persistent threads: register_function / register_prefix_op / register_postfix_op / register_infix_op(name, precedence, associativity) with handlers that return List[id, operands...]; names are fresh words, re-registrations of earlier names and built-in names (min, sum, +, - prefix, ++, in, &&) - also as the very first engine call of the process; symbolic operators only as one-character extensions of existing operators; precedences from {1, 2, 19, 20, 21, 39..41, 59..61, 109..111, 119..121, 199..201, 10^9-1, 10^9} and uniform 1..=10^9 (an operator on an existing level takes that level's associativity); parse(text) and exec(text, context) steps with flat programs generated over the CURRENT operator table that use the registered names often; contexts that shadow a global function with a context function, bind the same name as a variable, or leave it unbound. Oracle: a model registry updated per step (insert semantics); parse => reference parser parameterised by the model table; exec => reference evaluator whose handlers return List[id, args...], call dispatch = context function, else global, else error. Plus pairs of operators at 999 999 999 / 10^9, 6*10^8 / 9*10^8 and around 2^29, held-initialisation scenarios in which built-ins are overridden while another thread's first use is parked mid-initialisation, and the exhaustive adjacent-precedence table: a new operator at p in {q-1, q, q+1} x {LEFT, RIGHT where allowed} on either side of each of the 11 built-in levels q. Non-trivial: a re-registration, built-in override or context shadow that is subsequently used, or an operator whose precedence differs by exactly 1 from another operator used in the same text; distinct by (step-kind sequence, relative precedence pattern).",
     assumptions: &[
         "an operator registered at an existing precedence level is given that level's associativity (mixed associativity on one level is undocumented)",
         "one spelling is not registered both as postfix and as prefix/infix operator (undocumented)",
@@ -449,6 +449,28 @@ fn fixed(env: &Env, st: &mut Stats) -> CaseResult {
             }
         }
     }
+    // distinct precedences near the top of the allowed range must stay distinct
+    for (lo, hi) in [(999_999_999i64, 1_000_000_000i64), (600_000_000, 900_000_000), (536_870_911, 536_870_912), (536_870_912, 536_870_913), (1_000_000, 1_000_001)] {
+        for (rl, rh) in [(false, false), (true, true), (false, true)] {
+            i += 1;
+            if !env.mine(i) {
+                continue;
+            }
+            st.hist("large-precedence-table");
+            st.nontrivial(&format!("large:{}:{}:{}:{}", lo, hi, rl, rh));
+            let steps = vec![
+                json!({"op": "reg_op", "spec": {"kind": "infix", "name": "lw", "prec": lo, "right": rl}, "id": 71, "thread": 0}),
+                json!({"op": "reg_op", "spec": {"kind": "infix", "name": "hg", "prec": hi, "right": rh}, "id": 72, "thread": 0}),
+                json!({"op": "parse", "text": "a lw b hg c", "thread": 0}),
+                json!({"op": "parse", "text": "a hg b lw c", "thread": 0}),
+                json!({"op": "parse", "text": "a lw b hg c lw d hg e", "thread": 0}),
+                json!({"op": "parse", "text": "a lw b lw c ; a hg b hg c", "thread": 0}),
+                json!({"op": "parse", "text": "a + b lw c * d hg e in g", "thread": 0}),
+                json!({"op": "exec", "text": "10 lw 2 hg 3", "ctx": {}, "thread": 0}),
+            ];
+            run_history(1, &steps, env, st)?;
+        }
+    }
     // overrides of built-ins as the very first engine call of the process
     for first in [
         json!({"op": "reg_fn", "name": "min", "id": 61, "thread": 0}),
@@ -472,6 +494,22 @@ fn fixed(env: &Env, st: &mut Stats) -> CaseResult {
             json!({"op": "exec", "text": "[ min ( 3 , 1 ) , sum ( 1 , 2 ) ]", "ctx": {"min": {"fn": 901}, "sum": {"var": V::int(5).to_json()}}, "thread": 0}),
         ];
         run_history(1, &steps, env, st)?;
+    }
+    // "once register_* has returned, every later evaluation uses the handler registered last",
+    // also when the registration raced with another thread's first use of the engine: the
+    // initialising thread is parked between its stages while built-ins are overridden
+    for stage in 1..=3u64 {
+        for a in ["parse:1+2", "exec:1+2"] {
+            i += 1;
+            if !env.mine(i) {
+                continue;
+            }
+            st.hist("override-during-first-use");
+            crate::props::c13::run_held(a, stage, &["reg_fn:min", "reg_infix:+", "reg_prefix:-", "reg_postfix:++", "reg_fn:fresh", "exec:min(1,2)"], env, st).map_err(|mut f| {
+                f.detail = format!("(held-initialisation scenario, replay with ./check C13 --replay) {}", f.detail);
+                f
+            })?;
+        }
     }
     st.set_extra("exhaustive_adjacent_precedence_table", json!(true));
     Ok(())
